@@ -479,7 +479,7 @@ class Interp:
             v = st.frames[origin[1]][0][origin[2]]
             if isinstance(v, Alias):
                 return self.load(st, v.origin, v.kind)
-            return SV(v.kind, v.tree, origin)
+            return SV(v.kind, v.tree, origin, None, v.meta)
         if tag == "fld":
             _, ref, cls, fld = origin
             return SV(kind, tselect(self.heap_get(st, cls, fld), ref), origin)
@@ -577,7 +577,7 @@ class Interp:
             if isinstance(v, Alias):
                 return self.load(st, v.origin, v.kind)
             if isinstance(v, SV) and v.kind.tag in MUTABLE_TAGS:
-                return SV(v.kind, v.tree, ("var", fid, name))
+                return SV(v.kind, v.tree, ("var", fid, name), None, v.meta)
             return v
         # ghost / spec names
         if name in st.ghost:
